@@ -322,6 +322,10 @@ var universe = []Obj{
 	A(I(two53p)), A(D("9007199254740992")), V(V(R("1/3"))), V(V(D("0.3333333333333333"))),
 	// complex numbers, with a zero imaginary part (equal to a real) and without
 	Src("#C(1 0)"), Src("#C(2.5 0)"), Src("#C(1 2)"), Src("#C(0 0)"), D("2.5"), R("5/2"),
+	// floats that are not numbers and infinities, double and single, bare and inside a list: every predicate must still be
+	// reflexive on one object and the chain must hold between two of them (= is false for a NaN and itself)
+	Src("(- (* 1e308 10) (* 1e308 10))"), Src("(coerce (- (* 1e308 10) (* 1e308 10)) 'single-float)"), Src("(* 1e308 10)"), Src("(- (* 1e308 10))"),
+	Src("(coerce (* 1e308 10) 'single-float)"), L(Src("(- (* 1e308 10) (* 1e308 10))")), V(Src("(* 1e308 10)")),
 	// nil, the empty list, t
 	{K: "nil"}, L(), {K: "t"},
 }
